@@ -117,6 +117,8 @@ structure G where
   done : List Done := []
   begins : List (Nat × Nat) := []   -- (request id, length of `wlog` when it began), newest first
   spans : List Span := []           -- one entry per finished request, in the order of `done`
+  /-- requests answered without having been dealt a revision (`tso.Deal` refused: window full), `rev = 0` -/
+  refused : List Done := []
   deriving Repr
 
 inductive Action where
@@ -141,6 +143,20 @@ def G.finish (g : G) (c : Client) (res : WriteRes) (rev : Nat) : G :=
            done := g.done ++ [{ id := c.id, kind := c.kind, res := res, rev := rev,
                                 beginDealt := c.beginDealt, endDealt := g.dealt }],
            spans := g.spans ++ [{ id := c.id, rev := rev, beginLog := g.beginOf c.id, endLog := g.wlog.length }] }
+
+/-- `tso.Deal` refuses (since /repo 624b477): the revision it would deal, `dealt + 1`, is a whole ring ahead of the
+committed one, `dealt + 1 - committed ≥ MaxInFlight` (= the slot ring of the sequencer): it would have no slot.
+(`dealt ≥ committed` always holds here: `C04.committed_le_dealt`.) `Cfg.dealUnguarded` = the `Deal` before the fix. -/
+def windowFullAt (cfg : Cfg) (dealt committed : Nat) : Bool :=
+  !cfg.dealUnguarded && decide (dealt + 1 - committed ≥ cfg.ringLen)
+
+def G.windowFull (g : G) : Bool := windowFullAt g.cfg g.dealt g.committed
+
+/-- A request returns without a revision: nothing is dealt, nothing reported (`notify` ignores revision 0). -/
+def G.refuse (g : G) (c : Client) (res : WriteRes) : G :=
+  { g with clients := g.clients.filter (·.id != c.id),
+           refused := g.refused ++ [{ id := c.id, kind := c.kind, res := res, rev := 0,
+                                      beginDealt := c.beginDealt, endDealt := g.dealt }] }
 
 /-- `notify`: fill the slot of `rev` (revision 0 fills nothing). -/
 def G.notify (g : G) (w : WEvent) : G :=
@@ -179,17 +195,34 @@ def finishCreate (g : G) (c : Client) (key val : Bytes) (rev : Nat) (r : CommitR
 
 /-- Decide what to do with the index value seen by a conflicting create (`att = 0`: the value its put-if-absent
 ran into; `att > 0`: the value read again after `att` failed compare-and-swaps, fix eb6d1d1): a deletion record
-older than this revision is overwritten by compare-and-swap (loop body, attempt `att`); anything else is a failed
-condition. A value that does not parse is `parseErr` the first time, the failed compare-and-swap's `err` later. -/
+older than this revision is overwritten by compare-and-swap (loop body, attempt `att`); a deletion record at or
+above this revision is an ERROR since fix 42e5238 (`tombAbove`: the key is absent, the condition did not fail, nothing
+can be written below the record), a live record a failed condition. A value that does not parse is `parseErr` the first time, the failed compare-and-swap's `err` later. -/
 def createSawIndex (g : G) (c : Client) (key val : Bytes) (rev : Nat) (old : Bytes) (att : Nat := 0) : G :=
   match parseRevision old with
   | none => finishCreate g c key val rev (if att == 0 then .err else .conflict none none)
   | some (prevRev, tomb) =>
     if tomb && prevRev < rev then g.setClient { c with pc := .createOver rev old att }
-    else finishCreate g c key val rev (.conflict none none)
+    else finishCreate g c key val rev (tombAbove g.cfg tomb)
 
-/-- One atomic step of client `c` (fault `f` applies if the step is a commit). -/
-def stepClient (g : G) (c : Client) (f : Fault) : G :=
+/-- The steps that call `tso.Deal`: the first step of a create / update, the second of a delete. -/
+def dealSite (c : Client) : Bool :=
+  match c.pc, c.kind with
+  | .start, .create _ _ => true
+  | .start, .update _ _ _ => true
+  | .deleteDeal _, .delete _ _ => true
+  | _, _ => false
+
+/-- What a request whose `Deal` was refused answers: an error — except the delete of a missing key, which ignores the
+error of its `mustDeal` and answers "not found" under header 0. -/
+def refusal (c : Client) : WriteRes :=
+  match c.pc with
+  | .deleteDeal none => .notFound 0
+  | _ => .error .other
+
+/-- One atomic step of client `c` once `Deal` (if the step calls it) has handed out `dealt + 1`
+(fault `f` applies if the step is a commit). -/
+def stepClientCore (g : G) (c : Client) (f : Fault) : G :=
   let cf := g.cfg
   match c.pc, c.kind with
   -- ---- create path (Create, and Update with expected revision 0)
@@ -302,6 +335,10 @@ def stepClient (g : G) (c : Client) (f : Fault) : G :=
   -- unreachable pc/kind combinations: no-op
   | _, _ => g
 
+/-- One atomic step of client `c`: a step that deals a revision is refused while the window is full. -/
+def stepClient (g : G) (c : Client) (f : Fault) : G :=
+  if dealSite c && g.windowFull then g.refuse c (refusal c) else stepClientCore g c f
+
 /-- The sequencer: consume slot `committed + 1` when it is filled. -/
 def stepSeq (g : G) : G :=
   match g.slots.find? (fun w => w.rev == g.committed + 1) with
@@ -327,6 +364,8 @@ def stepRetryRead (g : G) : G :=
       | none => { g with retryQ := rest }
       | some (val, modRev) =>
         if val.length == 0 || modRev != w.rev then { g with retryQ := rest }
+        -- `Deal` refused: `overwrite` returns (0, err), `retry()` keeps the head and tries again at the next tick
+        else if g.windowFull then g
         else { g with dealt := g.dealt + 1, retryPc := some { w := w, rev := g.dealt + 1, val := val } }
 
 /-- Second half: commit `[CAS(revKey, new, prev), Put(objKey_new, val)]`, report the new revision to the
